@@ -18,6 +18,7 @@
         whose counter was never pruned (counters are keyed by the 16-bit number)
      12 receiveLog.get answers differently from the recount (received and within the window) *)
 From IV Require Import Base.Word Model.ReceiveLog Model.NackGen Spec.NackSpec Spec.NackGenSpec.
+From Coq Require Import MSets.MSetPositive.
 
 (* ---------- core stream: case = (size, ops, outs); op (0,seq)=add, (1,skip)=missingSeqNumbers,
    (2,seq)=get (output [1] = true, [0] = false) ---------- *)
@@ -66,15 +67,23 @@ Definition classify_extra (sz skip : Z) (s : option sst) (q : Z) : nat :=
         else 5%nat
   end.
 
+(* membership in a list of numbers >= -1 through a positive set (the lists of a failing case of
+   size 32768 have tens of thousands of entries; a quadratic scan would take minutes) *)
+Definition pkey (q : Z) : positive := Z.to_pos (q + 2).
+Definition pset_of (l : list Z) : PositiveSet.t :=
+  fold_left (fun acc q => PositiveSet.add (pkey q) acc) l PositiveSet.empty.
+
 (* code for one missingSeqNumbers result o against the expected list e *)
 Definition list_code (sz skip : Z) (s : option sst) (e o : list Z) : nat :=
   if list_eqb Z.eqb e o then 0%nat
   else if list_eqb Z.eqb o [-1] then 10%nat
   else
-    match filter (fun q => negb (memz q e)) o with
+    let se := pset_of e in
+    match filter (fun q => negb (PositiveSet.mem (pkey q) se)) o with
     | q :: _ => classify_extra sz skip s q
     | [] =>
-        match filter (fun q => negb (memz q o)) e with
+        let so := pset_of o in
+        match filter (fun q => negb (PositiveSet.mem (pkey q) so)) e with
         | _ :: _ => 4%nat
         | [] => 5%nat
         end
